@@ -1435,12 +1435,7 @@ func c12R7(p *core.Prog, r *core.Report) {
 			if strings.HasPrefix(l.Header.Comment, "range") {
 				continue
 			}
-			var listing ssa.CallInstruction
-			l.Instrs(func(in ssa.Instruction) {
-				if c, ok := in.(ssa.CallInstruction); ok && isListing(core.Callee(c)) {
-					listing = c
-				}
-			})
+			listing := pagerListing(l, isListing)
 			if listing == nil {
 				continue
 			}
@@ -1510,4 +1505,32 @@ func c12R7(p *core.Prog, r *core.Report) {
 	if n == 0 {
 		r.Held(rule, "module", "no client-side marker pager", "", "nothing pages through a listing outside the registry scheme")
 	}
+}
+
+// pagerListing returns the call inside loop l that fetches a page of a listing: a call of a listing
+// function, or of a helper of the same package that makes one.
+func pagerListing(l *core.Loop, isListing func(*types.Func) bool) ssa.CallInstruction {
+	var listing ssa.CallInstruction
+	l.Instrs(func(in ssa.Instruction) {
+		c, ok := in.(ssa.CallInstruction)
+		if !ok {
+			return
+		}
+		if isListing(core.Callee(c)) {
+			listing = c
+			return
+		}
+		g := core.CalleeFn(c)
+		if g == nil || len(g.Blocks) == 0 || core.FuncPkg(g) != core.FuncPkg(in.Parent()) {
+			return
+		}
+		for h := range core.Helpers(g, 2) {
+			core.Calls(h, func(hc ssa.CallInstruction) {
+				if isListing(core.Callee(hc)) && listing == nil {
+					listing = c
+				}
+			})
+		}
+	})
+	return listing
 }
